@@ -9,6 +9,7 @@ From Coq Require Import List NArith ZArith Bool Sorted.
 Import ListNotations.
 Require Import Verif.Lib.Wire Verif.Lib.C04Sort Verif.Gen.Facts_C04 Verif.Model.C04 Verif.Model.C04_entry Verif.Model.C04_err Verif.Gen.Exec_C04.
 Require Import Verif.Proofs.C04 Verif.Proofs.C04_flat Verif.Proofs.C04_decide Verif.Proofs.C04_safe Verif.Proofs.C04_groups Verif.Proofs.C04_spec Verif.Proofs.C04_mono Verif.Proofs.C04_one Verif.Proofs.C04_defer Verif.Proofs.C04_step Verif.Proofs.C04_all Verif.Proofs.C04_order Verif.Proofs.C04_gen Verif.Proofs.C04_late Verif.Proofs.C04_entry Verif.Proofs.C04_pos Verif.Proofs.C04_err Verif.Proofs.C04_text.
+Require Import Verif.Proofs.C04_sim.
 
 (* ---- the control flow of ActionState.execute_actions and of ActionConfiguratorMixin.action is REGENERATED from the
    source on every run (harness/c04/translate.py -> Gen/Exec_C04.v); it equals the hand-written model *)
@@ -458,3 +459,49 @@ Proof.
         (conj commit_fixed_crossphase commit_fixed_lingering))))).
 Qed.
 Print Assumptions C04_repairs_independent.
+
+(* ---- PIECES OF THE SIMULATION between the code's group pass and the specification's recomputation (spec_exec) ----
+   [won_matches won res]: the specification's memory of executed actions agrees with resolved_ainfos.  For one order
+   group [fg] (all of one phase): the discriminators the specification calls contested ([sx_contested]) are exactly the
+   ones [contested_b] describes ... *)
+Theorem C04_sx_contested_is_contested_b : forall won res fg,
+  won_matches won res ->
+  (forall x y, In x fg -> In y fg -> okey x = okey y) ->
+  sx_contested won (map snd fg) = filter (contested_b res fg) (group_discs fg).
+Proof. exact sx_contested_is_contested_b. Qed.
+Print Assumptions C04_sx_contested_is_contested_b.
+
+(* ... hence, END TO END for one group pass in ANY resolver state: the conflict the code raises names exactly the
+   discriminators the specification's recomputation calls contested (composition with C04_group_conflicts) *)
+Theorem C04_group_conflicts_are_spec_contested : forall won res fg,
+  NoDup (map aidx fg) -> won_matches won res ->
+  (forall x y, In x fg -> In y fg -> okey x = okey y) ->
+  map fst (snd (detect cfg_fixed res (sort_unique_lists (build_unique fg)))) = sx_contested won (map snd fg).
+Proof. exact group_conflicts_are_spec_contested. Qed.
+Print Assumptions C04_group_conflicts_are_spec_contested.
+
+Example C04_group_conflicts_are_spec_contested_nonvacuous :
+  NoDup (map aidx w_fg) /\ won_matches [] [] /\ (forall x y, In x w_fg -> In y w_fg -> okey x = okey y) /\
+  sx_contested [] (map snd w_fg) = [1%N].
+Proof. exact sim_witness. Qed.
+
+(* the two memories stay matched along a run: empty at the start, and extended alike by every executed action *)
+Theorem C04_won_matches_preserved : won_matches [] [] /\ forall won res i a,
+  won_matches won res ->
+  won_matches (match D a with Some d => (d, a) :: won | None => won end) ((D a, (i, a)) :: res).
+Proof. exact (conj won_matches_nil won_matches_step). Qed.
+Print Assumptions C04_won_matches_preserved.
+
+(* list.remove of actions with pairwise distinct identities is a FILTER (the order of what stays is kept): the discard
+   step of the group pass leaves remaining_actions filtered by "is not one of the discarded actions" -- the list form
+   the specification's `filter keep pool` needs *)
+Theorem C04_remove_all_is_filter : forall ds l l',
+  NoDup (map aid l) -> remove_all ds l = Some l' -> l' = filter (not_among (map aidx ds)) l.
+Proof. exact remove_all_is_filter. Qed.
+Print Assumptions C04_remove_all_is_filter.
+
+Theorem C04_group_discard_is_filter : forall grp rem discards rem2,
+  NoDup (map aid rem) -> remove_all discards (mark_group grp rem) = Some rem2 ->
+  rem2 = filter (not_among (map aidx discards)) (mark_group grp rem).
+Proof. exact group_discard_is_filter. Qed.
+Print Assumptions C04_group_discard_is_filter.
